@@ -2,7 +2,8 @@ HOOK_COMMITS = ["d41ea61", "4c86597", "b4eb0a9"]
 NOTES = ("Every check is `bin/check <ID>`: TLC model-checks the focused configuration(s) of the implementation-shaped TLA+ model with the "
          "observer's property clauses as invariant, the model's state graph is exported as schedules, the Rust harness replays them (and "
          "seeded-random schedules) on the real code, and TLC validates the recorded traces against the observer (verdict) and against the "
-         "model (conformance; a mismatch is reported as DRIFT, never as a violation). See DESIGN.md.")
+         "model (conformance, for model-exported AND generated schedules; a mismatch is reported as DRIFT, never as a violation). "
+         "See DESIGN.md.")
 NOT_APPLICABLE = {}
 MSG_NOTE = ("Trusted: TLC; the observer module spec/RenetObs.tla (the property clauses); the harness projection (content interning, packet "
             "description through the crate's own decoder behind the `verif` feature). Exhaustive only within the stated small scopes; larger "
@@ -16,23 +17,26 @@ NC_NOTE = ("Trusted: TLC; the observer module spec/NetcodeObs.tla; the symbolic 
            "the OS RNG and key secrecy are trusted; datagram labels (genuine / replay / re-addressed / mutated / crafted) are ground truth by "
            "construction of the harness, datagrams are opened with the keys the harness issued through the crate's own codec (`verif` feature). "
            "Model configs run the intended design (TokenSingleUse = TRUE); the code's deviation D18 is a recorded known finding. Exhaustive only "
-           "within the stated small scopes (2-3 identities, 6-9 steps, window 256 untouched); the 2048-entry token table is never filled.")
+           "within the stated small scopes (2-3 identities, 6-9 steps); the 2048-entry token table is filled by one dedicated history "
+           "(known finding D21), the replay window's at-most-once property is proved for all sequence numbers with TLAPS (spec/ReplayWindow.tla).")
 
 
 def _nc(text):
     return {"category": "model_checking", "text": text, "note": NC_NOTE,
-            "technique": "TLA+/TLC model checking (symbolic crypto) + model-exported schedule replay + TLC trace validation (monitor)"}
+            "technique": "TLA+/TLC model checking (symbolic crypto) + model-exported schedule replay + TLC trace validation (monitor and strict)"}
 
 
 CHECKS = {
     "C04": _nc("Netcode.tla: one session, payloads in both directions generated and presented in any order, replayed and re-addressed "
                "(9 steps) with C04_Authentic / C04_Once / C04_Accept as invariants; sampled finished behaviours replayed on the real "
                "NetcodeServer / NetcodeClient; plus seeded payload histories with bit-flipped / truncated / re-addressed copies, packets "
-               "sealed under another session's keys or protocol id, window-boundary sequence jumps (254..512) and session restarts."),
+               "sealed under another session's keys or protocol id, window-boundary sequence jumps (254..512) and session restarts; thorough "
+               "tier: TLAPS proof (82 obligations) that the replay ring buffer of replay_protection.rs never accepts a sequence number twice."),
     "C05": _nc("Netcode.tla: a victim and an attacker owning two tokens (one for the victim's id), three addresses, 2 slots; requests, "
                "responses, replays, re-addressed copies and challenges cross-used between the attacker's sessions in any interleaving of 6 "
                "steps with C05_Sound as invariant; replay on the code; plus seeded handshake histories with expired (clock at expiry -1001..+1001 "
-               "ms), foreign-key, foreign-protocol, wrong-host and single-field tampered tokens."),
+               "ms), foreign-key, foreign-protocol, wrong-host and single-field tampered tokens; the 2048-entry token table at and one below "
+               "its capacity (known finding D21: the oldest binding is replaced)."),
     "C07": _nc("All 256 prefix bytes x length classes x sequence values, request-shaped junk of every announced sequence length and all-zero / "
                "all-one strings presented in every protocol state (unknown / pending / connected address; client requesting / responding / "
                "connected / disconnected), single-bit flips and truncations of sample datagrams of every kind, hostile connect-token bytes "
@@ -52,21 +56,26 @@ CHECKS = {
             "text": "MC_Transport.tla models the renet_netcode glue (server update: process datagrams -> add/remove_connection, update_client, push "
                     "renet disconnections down; client update; per step, client and direction the relay passes or drops what is queued; up to two "
                     "application / client / transport initiated disconnects) with C20_LockStep, C20_EventsOnce and 'nothing disconnects unless "
-                    "asked' as invariants over every interleaving of 13 steps; sampled behaviours are replayed on the REAL "
+                    "asked or after a whole time-out of silence' and 'no early time-out' as invariants over every interleaving of 13 steps (250 ms "
+                    "steps) and of 11 steps with a reachable 1 s time-out (400 ms steps); TLC liveness under weak fairness of every endpoint "
+                    "(a requested disconnect or a time-out ends the session on both sides in both layers, every Connected event gets its "
+                    "Disconnected; 1 client quick, 2 clients / 1.0 M states thorough); sampled behaviours are replayed on the REAL "
                     "NetcodeServerTransport / NetcodeClientTransport over loopback UDP behind the harness relay, followed by good rounds; plus "
                     "seeded relay schedules (drop / duplicate / hold / late + replayed / bit-corrupted datagrams, 2-4 clients, staggered joins, "
                     "churn, cut-off clients); clauses C20_LockStep (renet ids = netcode ids = client_addr map after every server update), "
                     "_EventsOnce, _BothSides, _OnlyTimeouts, _Connects, end-to-end E2E_Same / _Ordered / _Once / _Live.",
             "note": "Trusted: TLC, spec/TransportObs.tla, loopback UDP (synchronous delivery, bounded poll otherwise); time is virtual (duration "
-                    "argument). The glue model abstracts both layers to per-id states and has no time-outs; no strict pass for it.",
-            "technique": "TLA+/TLC model checking of the transport glue + exported relay schedules on the real UDP stack + TLC trace validation"},
+                    "argument). The glue model abstracts both layers to per-id states and datagram kinds; its strict pass compares client status, "
+                    "listed ids of both layers and per-id server events after every transport step.",
+            "technique": "TLA+/TLC model checking (safety + liveness under fairness) of the transport glue + exported relay schedules on the real UDP stack + TLC trace validation (monitor and strict)"},
     "C17": _nc("(a) every sampled bit position and truncation length of sample datagrams of every kind, and all 64 single-bit variants of the "
                "protocol id, must yield no content and no effect (C17_TamperEvident); (b) C17_NonceUnique over every datagram either side "
                "emits (key, sequence -> byte hash) in all model-exported handshake / denial / retry / disconnect histories (Netcode.tla, two "
                "identities racing for one slot) and seeded histories, scope = one connection attempt and the session that follows."),
     "C18": _nc("Netcode.tla with time: one client whose token has a 1 s timeout; client and server updates of 250 / 1000 ms, honest exchanges, "
-               "replays, in any interleaving of 7 (thorough: 9, 3.9 M states) steps with C18_TimesOut / C18_NoFalseTimeout / "
-               "C18_ForgeryDoesNotPostpone (observer's own generous and strict clocks) as invariants; sampled behaviours replayed on the code; "
+               "replays, in any interleaving of 7 (thorough: 9) steps with C18_TimesOut / C18_NoFalseTimeout / "
+               "C18_ForgeryDoesNotPostpone (observer's own generous and strict clocks) as invariants; C18_Connects on the model: any fault phase "
+               "of up to 6 steps (thorough: two clients, 7 steps, 100 ms ticks), then heal and good rounds (DoPump) up to the bound; sampled behaviours replayed on the code; "
                "bounded liveness on the real code: lossy handshakes (each packet lost with p 0.3-0.7, duplicated), ticks 50/250/300/1000 ms, "
                "timeouts 1/5/none, fail-over from a silent first address with loss after the switch, limit raised/lowered at run time, restart "
                "with a fresh token (C18_Connects within the bound after heal), cut-off peers, forged / replayed / request-shaped datagrams "
@@ -102,7 +111,9 @@ CHECKS = {
                 "stalled, disconnected or with a stalled reliable channel."),
     "C12": _msg("MC_Server.tla: every sequence of up to 5 public calls (add/remove connection, disconnect, set_connected/connecting, transport "
                 "disconnect, get_event, send on a 10-byte channel, flush, deliver, undecodable packet) over two ids; clauses C12_Absorbing, "
-                "C12_Alternation, C12_Reason; every model state replayed; seeded-random call sequences up to 25 calls including local clients."),
+                "C12_Alternation, C12_Reason; every sequence of up to 6 local-client / table / status / traffic calls over one id "
+                "(new_local_client, disconnect_local_client, process_local_client modelled in RenetSrv.tla); every model state replayed; "
+                "seeded-random call sequences up to 25 calls including local clients; strict pass on all of them."),
     "C13": _msg("(message layer) TLC explores messages around the packing threshold with ids/sequences across varint width boundaries "
                 "(PacketLen of the wire model <= 1300, no serialization failure); replay; seeded schedules with counters started at 2^6, 2^14, "
                 "2^30, 2^62-400 and up to 150 widely spaced / descending / zig-zag sequence numbers feeding the pending ack ranges; (netcode "
